@@ -15,7 +15,7 @@ use std::time::Duration;
 
 pub struct C07;
 
-pub const STATES: [&str; 17] = [
+pub const STATES: [&str; 19] = [
     "clean",
     "clean-multi",
     "warn-deprecated",
@@ -33,6 +33,8 @@ pub const STATES: [&str; 17] = [
     "err-redefinition-across-files",
     "err-bad-file-attribute-in-module-less-file",
     "err-non-utf8-file",
+    "err-in-branch-that-another-file-would-define-away",
+    "clean-error-in-branch-that-another-file-would-define-in",
 ];
 
 pub fn clean_text(i: usize) -> String {
@@ -107,7 +109,17 @@ fn case(cx: &mut CaseCtx, input: Input) -> CaseResult {
                 }
                 "err-cycle" => {
                     error_expected = true;
-                    format!("module M\nstruct C{i} {{ c: Sequence<C{i}?> }}\n")
+                    let through = ["Sequence<C@?>", "Result<string, C@>", "Result<C@, string>", "Dictionary<string, C@>", "C@"][pick(&mut u, 5)];
+                    format!("module M\nstruct C{i} {{ c: {} }}\n", through.replace('@', &i.to_string()))
+                }
+                // symbols defined in a file are that file's alone: the other files define the symbol, this one
+                // does not
+                "err-in-branch-that-another-file-would-define-away" => {
+                    error_expected = true;
+                    format!("module M\n#if C07_LEAK\nstruct Fine{i} {{}}\n#else\nstruct {{\n#endif\n")
+                }
+                "clean-error-in-branch-that-another-file-would-define-in" => {
+                    format!("module M\n#if C07_LEAK\nstruct {{\n#endif\nstruct Fine{i} {{}}\n")
                 }
                 "err-redefinition" => {
                     error_expected = true;
@@ -125,6 +137,8 @@ fn case(cx: &mut CaseCtx, input: Input) -> CaseResult {
                 }
                 _ => clean_text(i),
             }
+        } else if state.contains("-in-branch-that-another-file-") {
+            format!("#define C07_LEAK\n{}", clean_text(i))
         } else {
             clean_text(i)
         };
